@@ -1161,6 +1161,56 @@ impl PackageTemplate {
 	}
 }
 
+#[cfg(feature = "verif_hooks")]
+impl PackageTemplate {
+	/// One-token dump of this package for the package-layer differential (verif C06/C07):
+	/// `<malleability>,<counterparty_spendable_height>,<feerate_previous>,<height_timer>,<inputs>`
+	/// with inputs `txid8:vout~kind` joined by `+` (`-` when empty).
+	pub(crate) fn verif_dump(&self) -> alloc::string::String {
+		use alloc::format;
+		use alloc::string::String;
+		let mall = match self.malleability {
+			PackageMalleability::Malleable(AggregationCluster::Pinnable) => "MP",
+			PackageMalleability::Malleable(AggregationCluster::Unpinnable) => "MU",
+			PackageMalleability::Untractable => "U",
+		};
+		let mut ins: Vec<String> = Vec::new();
+		for (o, d) in self.inputs.iter() {
+			let free = |f: &ChannelTypeFeatures| {
+				(f.supports_anchors_zero_fee_htlc_tx() || f.supports_anchor_zero_fee_commitments())
+					as u8
+			};
+			let k = match d {
+				PackageSolvingData::RevokedOutput(_) => String::from("RO"),
+				PackageSolvingData::RevokedHTLCOutput(x) => format!("RH{}", x.htlc.offered as u8),
+				PackageSolvingData::CounterpartyOfferedHTLCOutput(x) => {
+					format!("CO{}", x.htlc.cltv_expiry)
+				},
+				PackageSolvingData::CounterpartyReceivedHTLCOutput(x) => {
+					format!("CR{}", x.htlc.cltv_expiry)
+				},
+				PackageSolvingData::HolderHTLCOutput(x) => format!(
+					"HH{}.{}.{}",
+					x.preimage.is_some() as u8,
+					x.cltv_expiry,
+					free(&x.channel_type_features)
+				),
+				PackageSolvingData::HolderFundingOutput(_) => String::from("HF"),
+			};
+			let t = format!("{}", o.txid);
+			ins.push(format!("{}:{}~{}", &t[..8], o.vout, k));
+		}
+		format!(
+			"{},{},{},{},{}",
+			mall,
+			self.counterparty_spendable_height,
+			self.feerate_previous,
+			self.height_timer,
+			if ins.is_empty() { String::from("-") } else { ins.join("+") }
+		)
+	}
+}
+
 impl PartialEq for PackageTemplate {
 	fn eq(&self, o: &Self) -> bool {
 		if self.inputs != o.inputs
